@@ -11,7 +11,6 @@
      peers/peer.rs       the four limiters of an entry, mark_as_disconnected
      peers/rate_limiter.rs  exactly (RateLimiter::has_limit_exceeded / increase)
      verification_thread.rs verify_block: which fetched buffers count as invalid blocks
-     mempool.rs          add_golden_ticket's payload-length assert (GoldenTicket::deserialize_from_net)
 
    What is NOT modelled: everything that needs the chain, the ledger or the pool (block and
    transaction validation, ghost-chain insertion, chain requests): the model answers Ok there and the
@@ -131,12 +130,11 @@ Definition site_block_tag := "routing_thread::RoutingThread::process_incoming_me
 Definition site_keylist := "routing_thread::RoutingThread::process_incoming_message#1-unwrap".
 Definition site_keylist_debug := "io::network::Network::handle_received_key_list#1-unwrap@debug".
 Definition site_ghost_key := "routing_thread::RoutingThread::process_ghost_chain_request#2-unwrap".
-Definition site_gt_len := "consensus::golden_ticket::GoldenTicket::deserialize_from_net#1-assert".
 (* `(last_shared_ancestor + 1)..=latest_block_id` in generate_ghost_chain: arithmetic, not part of the inventory *)
 Definition site_ghost_overflow := "routing_thread::RoutingThread::generate_ghost_chain#arith-add-overflow".
 
 Definition model_sites : list string :=
-  [site_block_tag; site_keylist; site_keylist_debug; site_ghost_key; site_gt_len].
+  [site_block_tag; site_keylist; site_keylist_debug; site_ghost_key].
 
 (* ---------------------------------------------------------------- handlers *)
 
@@ -171,10 +169,10 @@ Definition dispatch (st : state) (now idx : N) (p : peer) (m : msg) : state * ou
            end
   | MBlock => (put st idx p, OPanic site_block_tag)
   | MTx ty len verified =>
-      (* routing: to the verification thread; consensus: golden tickets go to Mempool::add_golden_ticket *)
-      if verified && (ty =? GT_TYPE) && negb (len =? GT_LEN)
-      then (put st idx p, OPanic site_gt_len)
-      else (put st idx p, OOk)
+      (* routing: to the verification thread; consensus: golden tickets go to Mempool::add_golden_ticket.
+         Since fix eeb4ec7 a GoldenTicket-typed transaction whose payload is not 97 bytes does not decode
+         (it arrives as ENet None), so the payload assert of GoldenTicket::deserialize_from_net is out of reach *)
+      (put st idx p, OOk)
   | MChainReq | MHeaderHash | MPing | MSpv | MServices _ | MGhostChain | MApp | MResult | MError =>
       (put st idx p, OOk)
   | MGhostReq anc0_max =>
@@ -218,8 +216,9 @@ Definition touch_limiters (now : N) (p : peer) : peer :=
 Definition step (st : state) (now idx : N) (e : event) : state * outcome :=
   match e with
   | EConn =>
-      (* Network::handle_new_peer: a non-static entry is challenged *)
-      let p := match aget idx (peers st) with Some p => p | None => new_peer end in
+      (* Network::handle_new_peer: an existing entry loses the challenge of its previous connection
+         (fix 8a16f73), a non-static entry is challenged anew *)
+      let p := match aget idx (peers st) with Some p => set_challenge false p | None => new_peer end in
       (put st idx (if p_static p then p else set_challenge true p), OOk)
   | EDisc external =>
       (* Network::handle_peer_disconnect: for an external disconnect the IO layer is told to drop the socket *)
@@ -299,7 +298,6 @@ Definition known_msg (st : state) (now : N) (p : peer) (m : msg) : bool :=
                    | Some _ => a && overflow_checks st                (* ghost-request-id-max-overflow *)
                    end
   | MKeyList _ => snd (lim_check (lim_increase (p_kl p)) now)         (* key-list-limit-unwrap: the list that exceeds the quota *)
-  | MTx ty len verified => verified && (ty =? GT_TYPE) && negb (len =? GT_LEN)   (* gt-tx-payload-len *)
   | _ => false
   end.
 
